@@ -125,7 +125,7 @@ func c10Step(x *sess, in string) stepRec {
 		r := implEval(x, src, c10CancelAt(pct, src))
 		rec := stepRec{out: r.out}
 		if r.isErr {
-			rec.errs = []string{r.errText}
+			rec.errs = []string{r.errText + " | stack: " + r.errStack}
 			rec.out = ""
 		}
 		return rec
